@@ -25,5 +25,28 @@ LEVEL_NOTE = ('Other contexts reached through parent/linked/member '
 
 
 def units(ctx):
-    return [frame_unit('C17')] + pyvc_units(contexts.contracts(), 'C17',
-                                            contexts.setup)
+    from props._common import bounded_unit
+    us = [frame_unit('C17')] + pyvc_units(contexts.contracts(), 'C17',
+                                          contexts.setup)
+    # whole forests (the contracts see other contexts only through the
+    # abstract view): random nested Context / MultiContext / LinkedContext
+    # structures against an independent layer model - bounded, and the
+    # source of real failing inputs for the deductive obligations
+    us.append(bounded_unit(
+        'bounded:c17-forests', 'c17_forest.py',
+        'BOUNDED: 1500 random context forests (depth <= 3, null values, '
+        'exclusive registrations, naming convention) x every variable name '
+        '/ function name, compared with the reference layer model'))
+    return us
+
+
+def post(ctx, results):
+    from props._common import attach_replay
+    bounded = [o for r in results for o in r['obligations']
+               if o['name'] == 'bounded:c17-forests']
+    rep = (bounded[0].get('replay') if bounded else None)
+    if rep and rep.get('status') == 'failed':
+        attach_replay(results, lambda o: not o.get('bounded')
+                      and o.get('kind') in ('post', 'raises', 'inv-step',
+                                            'inv-init'), rep)
+    return results
